@@ -449,6 +449,10 @@ func checkApply(inj inject.Injector, scopes []*mscope, op Op, desc string, class
 		f := reflect.StructField{Name: fmt.Sprintf("F%d", i), Type: universe[tn]}
 		if op.Tag[i] {
 			f.Tag = `inject:""`
+			if i%2 == 1 {
+				// the inject key need not be the first one of the tag
+				f.Tag = `json:"f,omitempty" inject:"" xml:"-"`
+			}
 		}
 		fields = append(fields, f)
 	}
